@@ -443,6 +443,7 @@ func main() {
 	// direct (in-process) correspondence lines of the modelled helpers
 	directOps(o, pool)
 	optsfmtOps(o, pool)
+	previewOps(o)
 
 	// the pseudo functions for the index / slice syntax on binaries
 	fns = append(fns, fnInfo{name: "@index", arity: 1, src: "syntax"}, fnInfo{name: "@slice", arity: 2, src: "syntax"})
@@ -691,6 +692,31 @@ func optsfmtOps(o *hlib.Out, p poolT) {
 		}
 		o.Case("optsfmt "+t, obs)
 		o.Class("optsfmt " + t)
+	}
+}
+
+// preview: the real previewValue on every multi-byte string x every truncation limit; the
+// observation is the number of runes the preview kept
+func previewOps(o *hlib.Out) {
+	limits := []int{0, 1, 2, 12, 13, 14, 16, 17, 18, 29, 30, 31, 49, 50, 51, 52, 59, 60, 61, 1 << 31}
+	strs := append([]string{"", "abc"}, truncStrings...)
+	for _, s := range strs {
+		for _, st := range limits {
+			obs, panicked := hlib.Catch(func() string {
+				q := interp.VerifC13PreviewString(s, st)
+				u, err := strconv.Unquote(q)
+				if err != nil {
+					return "badquote"
+				}
+				return fmt.Sprintf("ok %d", len([]rune(u)))
+			})
+			if panicked {
+				obs = "panic"
+			}
+			op := fmt.Sprintf("preview s:%s n:%d", hexOrDash([]byte(s)), st)
+			o.Case(op, obs)
+			o.Class(op)
+		}
 	}
 }
 
